@@ -16,9 +16,10 @@ RULE = ("histories of 2-6 clients (threads, one proxy each, reconnecting now and
         "thread pool with THREADPOOL_SIZE_MIN=1 (workers reused by successive connections); a sequential phase forces worker reuse after a "
         "raising call. distinct = (history hash, server, serializer); one evaluation = one request; non-trivial = the request reached a method")
 ASSUMPTIONS = ["oneway completions are awaited (10 s watchdog, expiry = inconclusive)", "peer address compared with the client's getsockname() (TCP loopback)"]
-REQUIRED_REACH = ["injected_yields", "snapshots_checked", "replies_checked", "raising_calls", "oneway_calls", "batch_calls", "ping_replies", "handshake_replies", "worker_reuse_handshakes", "idless_requests", "reply_correlation_ids_checked", "refused_handshake_replies"]
+REQUIRED_REACH = ["injected_yields", "snapshots_checked", "replies_checked", "raising_calls", "oneway_calls", "batch_calls", "ping_replies", "handshake_replies", "worker_reuse_handshakes", "idless_requests", "reply_correlation_ids_checked", "refused_handshake_replies", "bare_requests"]
 SHARD_TIMEOUT = {"quick": 240, "thorough": 2800}
-OPS = ["ret", "noresp", "noresp", "rais", "rais", "ow", "batch", "batch_rais", "propget", "propset", "ping", "handshake", "reconnect", "propget_rais", "badhandshake"]
+OPS = ["ret", "noresp", "noresp", "rais", "rais", "ow", "batch", "batch_rais", "propget", "propset", "ping", "handshake", "reconnect", "propget_rais", "badhandshake", "bare", "bare", "barepoll"]
+# "bare": a request that carries no annotation at all; "barepoll": the same, to a method that writes into its own request-annotation dict
 
 
 class ServerLog:
@@ -59,7 +60,7 @@ def make_env(P, servertype, pool):
 
     def snapshot(token, idiom):
         ann = {k: bytes(v) for k, v in (ctx.annotations or {}).items()}
-        s = {"serial": getattr(ctx.client, "_vserial", None), "addr": ctx.client_sock_addr, "TOKN": ann.get("TOKN"), "corr": ctx.correlation_id,
+        s = {"serial": getattr(ctx.client, "_vserial", None), "addr": ctx.client_sock_addr, "TOKN": ann.get("TOKN"), "corr": ctx.correlation_id, "ann_keys": sorted(ann),
              "seq": ctx.seq, "flags": ctx.msg_flags, "ser": ctx.serializer_id, "pre_resp": dict(ctx.response_annotations)}
         slog.record(token, s)
         if idiom is None:
@@ -76,6 +77,11 @@ def make_env(P, servertype, pool):
 
         def ret(self, token, idiom):
             snapshot(token, idiom)
+            return token
+
+        def poll(self, token, idiom):
+            snapshot(token, idiom)
+            ctx.annotations["POLL"] = token.encode()      # a method may scribble in the annotation dict of ITS OWN request (Pyro's blob forwarding does)
             return token
 
         def noresp(self, token, idiom):
@@ -187,10 +193,14 @@ class Client(threading.Thread):
                     serial = p.whoami()
                     self.records.append(rec)
                     continue
-                ctx.annotations = {"TOKN": token.encode()}
+                ctx.annotations = {"TOKN": token.encode()} if op not in ("bare", "barepoll") else {}
                 ctx.correlation_id = corr
                 try:
-                    if op == "ret":
+                    if op == "bare":
+                        out = p.ret(token, idiom)
+                    elif op == "barepoll":
+                        out = p.poll(token, idiom)
+                    elif op == "ret":
                         out = p.ret(token, idiom)
                     elif op == "noresp":
                         out = p.noresp(token, idiom)
@@ -298,7 +308,11 @@ def check_history(fx, slog, clients, rec, pay):
                 exp_flags = (F.FLAGS_CORR_ID if r["corr"] is not None else 0) | (F.FLAGS_ONEWAY if r["op"] == "ow" else 0) | (F.FLAGS_BATCH if r["op"].startswith("batch") else 0)
                 local = r.get("local")
                 problems = []
-                if s["TOKN"] != token.encode():
+                if r["op"] in ("bare", "barepoll"):
+                    rec.count("bare_requests")
+                    if s["ann_keys"]:
+                        problems.append("request annotations %r although the request carried none" % (s["ann_keys"],))
+                elif s["TOKN"] != token.encode():
                     problems.append("request annotation TOKN=%r (sent %r)" % (s["TOKN"], token))
                 if r["corr"] is None:
                     rec.count("idless_requests")
